@@ -130,6 +130,7 @@ def build_libs(san=True, extra=()):
     sa, ca = os.path.join(outdir, "libvs.a"), os.path.join(outdir, "libvc.a")
     with Lock("cbuild"):
         if os.path.exists(sa) and os.path.exists(ca):
+            os.utime(outdir, None)
             return sa, ca
         objdir = os.path.join(CACHE, "obj")
         os.makedirs(objdir, exist_ok=True)
@@ -194,6 +195,7 @@ def build_harness(name, san=True, extra=(), libs=("server",), cxx=False):
     exe = os.path.join(bindir, name + "-" + key)
     with Lock("hbuild-" + name):
         if os.path.exists(exe):
+            os.utime(exe, None)      # keep binaries in use away from _gc
             return exe
         archives = []
         if "server" in libs:
